@@ -384,3 +384,77 @@ pub fn check_s2<O: Op>(op: &O, x: &[BigUint], seed: u64, n_faults: usize, exhaus
     let nt = stats.rejected + stats.accepted_correct > 0;
     Ok((stats.clone(), Verdict::of(nt, "S2").with(name)))
 }
+
+// ---------------------------------------------------------------------------
+// Catalogue visiting (used by C08/C09 to reuse the op catalogues of C04–C07)
+
+/// A visitor over a catalogue of ops. Each ops module exposes
+/// `pub fn visit_ops<V: OpVisitor>(v: &mut V, quick: bool, seed: u64)` calling
+/// `v.visit(&op, &inputs)` once per op with a few representative in-domain
+/// input tuples chosen to steer data-dependent branches differently
+/// (zero/non-zero, equal/unequal, carries, identity points, lengths).
+pub trait OpVisitor {
+    fn visit<O: Op>(&mut self, op: &O, inputs: &[Vec<BigUint>]);
+}
+
+/// Fingerprint of everything that must not depend on the witness: fixed
+/// columns, selectors, copy constraints, number of instance rows, k.
+#[derive(Clone, Debug, PartialEq, Eq)]
+pub struct Structure {
+    pub k: u32,
+    pub fixed: u64,
+    pub selectors: u64,
+    pub permutation: u64,
+    pub n_public: usize,
+    pub regions: u64,
+}
+
+/// Synthesises the op honestly under MockProver and fingerprints its structure.
+pub fn structure_of<O: Op>(op: &O, x: &[BigUint]) -> Result<Structure, String> {
+    use std::hash::{Hash, Hasher};
+    let inst = op.reference(x).ok_or_else(|| "input outside the domain".to_string())?;
+    let k = op_k(op, x)?;
+    let rel = OpRel { op: op.clone() };
+    let prover = vpcore::catch(|| {
+        let c = MidnightCircuit::new(&rel, Value::known(inst.clone()), Value::known(x.to_vec()), Some(op.max_bit_len()));
+        MockProver::run(k, &c, vec![vec![], inst.clone()])
+    })?
+    .map_err(|e| format!("{e:?}"))?;
+    let h = |f: &dyn Fn(&mut std::collections::hash_map::DefaultHasher)| {
+        let mut s = std::collections::hash_map::DefaultHasher::new();
+        f(&mut s);
+        s.finish()
+    };
+    let fixed = h(&|s| {
+        for col in prover.fixed() {
+            for c in col {
+                match c {
+                    CellValue::Assigned(v) => v.to_repr().as_ref().hash(s),
+                    CellValue::Unassigned => 0u8.hash(s),
+                    CellValue::Poison(_) => 1u8.hash(s),
+                }
+            }
+        }
+    });
+    let selectors = h(&|s| prover.selectors().hash(s));
+    let mapping: Vec<Vec<(usize, usize)>> = prover.permutation().mapping().map(|c| c.collect::<Vec<_>>()).collect();
+    let permutation = h(&|s| mapping.hash(s));
+    Ok(Structure { k, fixed, selectors, permutation, n_public: inst.len(), regions: 0 })
+}
+
+/// Verifying-key bytes of the op's circuit generated without a witness
+/// (`None`) or with one: the two must coincide.
+pub fn vk_bytes<O: Op>(op: &O, x: Option<&[BigUint]>, k: u32) -> Result<Vec<u8>, String> {
+    use midnight_proofs::{plonk::keygen_vk_with_k, poly::kzg::KZGCommitmentScheme, utils::SerdeFormat};
+    let rel = OpRel { op: op.clone() };
+    let params = vp_plonk::pv::params(k);
+    vpcore::catch(|| {
+        let (i, w) = match x {
+            Some(x) => (Value::known(vec![]), Value::known(x.to_vec())),
+            None => (Value::unknown(), Value::unknown()),
+        };
+        let c = MidnightCircuit::new(&rel, i, w, Some(op.max_bit_len()));
+        keygen_vk_with_k::<F, KZGCommitmentScheme<midnight_curves::Bls12>, _>(&params, &c, k).map(|vk| vk.to_bytes(SerdeFormat::RawBytes))
+    })?
+    .map_err(|e| format!("{e:?}"))
+}
